@@ -300,8 +300,10 @@ func (l *List) Accept(sta funcGen.Stack[Value]) (*List, error) {
 		return nil, err
 	}
 	return NewListFromIterable(func(st funcGen.Stack[Value]) iterator.Producer[Value] {
-		return iterator.FilterAuto[Value](l.iterable(st), func() func(v Value) (bool, error) {
-			s := funcGen.NewEmptyStack[Value]()
+		// The source may be evaluated concurrently to the consumer of this list if
+		// the filter is run in parallel, so it gets its own stack.
+		return iterator.FilterAuto[Value](l.iterable(st.Derive()), func() func(v Value) (bool, error) {
+			s := st.Derive()
 			return func(v Value) (bool, error) {
 				eval, err := f.Eval(s, v)
 				if err != nil {
@@ -322,8 +324,10 @@ func (l *List) Map(sta funcGen.Stack[Value]) (*List, error) {
 		return nil, err
 	}
 	return NewListFromSizedIterable(func(st funcGen.Stack[Value]) iterator.Producer[Value] {
-		return iterator.MapAuto[Value, Value](l.iterable(st), func() func(i int, v Value) (Value, error) {
-			s := funcGen.NewEmptyStack[Value]()
+		// The source may be evaluated concurrently to the consumer of this list if
+		// the mapping is run in parallel, so it gets its own stack.
+		return iterator.MapAuto[Value, Value](l.iterable(st.Derive()), func() func(i int, v Value) (Value, error) {
+			s := st.Derive()
 			return func(i int, v Value) (Value, error) {
 				return f.Eval(s, v)
 			}
@@ -402,7 +406,8 @@ func (l *List) Merge(sta funcGen.Stack[Value]) (*List, error) {
 	}
 	if otherList, ok := other.ToList(); ok {
 		return NewListFromIterable(func(st funcGen.Stack[Value]) iterator.Producer[Value] {
-			return iterator.Merge(l.iterable(st), otherList.iterable(st),
+			// both sources are evaluated in their own goroutines, so they get their own stacks
+			return iterator.Merge(l.iterable(st.Derive()), otherList.iterable(st.Derive()),
 				func(a, b Value) (bool, error) {
 					st.Push(a)
 					st.Push(b)
